@@ -44,6 +44,8 @@ pub mod shims_nondet {
 
 // (vstd already declares core::time::Duration as an external type)
 pub uninterp spec fn nanos(d: std::time::Duration) -> int;
+#[verifier::external_body]
+pub broadcast proof fn axiom_nanos_nonneg(d: std::time::Duration) ensures #[trigger] nanos(d) >= 0 { }
 
 pub assume_specification<T> [std::mem::drop] (_0: T);
 
